@@ -190,6 +190,7 @@ type Options struct {
 	Interfaces         bool
 	BigBodies          bool // more statements (bad smells)
 	CollidingPkgs      bool // package names whose concatenations collide (C08 arch)
+	TwinNames          bool // the same simple class name in two packages plus an un-imported user of it
 }
 
 var (
@@ -218,6 +219,9 @@ type gctx struct {
 	t       *tape.Tape
 	o       Options
 	classes []classInfo
+	// forceField[i] = simple type name class i must hold in an un-imported field (same-package reference
+	// to a simple name that also exists in another package: resolution must not depend on list order)
+	forceField map[int]string
 }
 
 func (g *gctx) pick(ss []string) string { return ss[g.t.Pick(len(ss))] }
@@ -259,6 +263,34 @@ func GenProject(t *tape.Tape, o Options) *Project {
 			ci.methods = append(ci.methods, mn)
 		}
 		g.classes = append(g.classes, ci)
+	}
+	g.forceField = map[int]string{}
+	if o.TwinNames && len(g.classes) >= 1 && t.Bool(2, 3) {
+		c := g.classes[t.Pick(len(g.classes))]
+		// a twin: same simple name in another package
+		var other []string
+		for _, p := range pkgs {
+			if p != c.pkg && !used[p+"."+c.name] {
+				other = append(other, p)
+			}
+		}
+		if len(other) > 0 {
+			twin := classInfo{pkg: other[t.Pick(len(other))], name: c.name, methods: []string{g.pick(methodNames)}}
+			used[twin.pkg+"."+twin.name] = true
+			g.classes = append(g.classes, twin)
+			// a user of the name, living in one of the two packages, without an import
+			userPkg := c.pkg
+			if t.Bool(1, 2) {
+				userPkg = twin.pkg
+			}
+			uname := classPool[t.Pick(len(classPool))]
+			for used[userPkg+"."+uname] || uname == c.name {
+				uname += "U"
+			}
+			used[userPkg+"."+uname] = true
+			g.classes = append(g.classes, classInfo{pkg: userPkg, name: uname, methods: []string{g.pick(methodNames), "use"}})
+			g.forceField[len(g.classes)-1] = c.name
+		}
 	}
 	p := &Project{}
 	for i := range g.classes {
@@ -374,6 +406,10 @@ func (g *gctx) genFile(fi int) *JFile {
 			fieldTypes[name] = fl.Type
 			f.Fields = append(f.Fields, fl)
 		}
+	}
+	if ft, ok := g.forceField[fi]; ok && f.Kind == "class" {
+		f.Fields = append(f.Fields, JField{Modifiers: "private", Type: ft, Name: "twin"})
+		fieldTypes["twin"] = ft
 	}
 	// constructors
 	if f.Kind == "class" && t.Bool(1, 3) {
@@ -509,6 +545,9 @@ func (g *gctx) genFile(fi int) *JFile {
 	// imports, in a drawn order
 	var imps []string
 	for q := range imports {
+		if ft, ok := g.forceField[fi]; ok && simple(q) == ft {
+			continue // the twin name must stay un-imported in its user
+		}
 		imps = append(imps, q)
 	}
 	sort.Strings(imps)
